@@ -1,0 +1,17 @@
+//go:build verif
+// +build verif
+
+package utils
+
+import uuid "github.com/satori/go.uuid"
+
+// VerifCreateWithId registers a notification channel under a given id, so that
+// the conformance harness in /verif can observe the outcome of an entry on a
+// replica that did not propose it.
+func (this *Notificator) VerifCreateWithId(id uuid.UUID, bufSize int) <-chan interface{} {
+	c := make(chan interface{}, bufSize)
+	this.mu.Lock()
+	this.chans[id] = c
+	this.mu.Unlock()
+	return c
+}
